@@ -63,6 +63,8 @@ static void flush_line()
     linebuf.clear();
 }
 
+static bool any_call_failed = false;   // some recorded call ended with ok=0
+
 struct J {
     // tiny JSON object writer with its own buffer (lifecycle events are
     // written while a command's own line is still being assembled); the
@@ -72,7 +74,10 @@ struct J {
         b = "{\"e\":\""; b += ev; b += "\"";
     }
     void key(const char* k) { b += ",\""; b += k; b += "\":"; }
-    J& i(const char* k, long v) { key(k); b += std::to_string(v); return *this; }
+    J& i(const char* k, long v) {
+        if (0 == v && 0 == strcmp(k, "ok")) any_call_failed = true;
+        key(k); b += std::to_string(v); return *this;
+    }
     J& s(const char* k, const std::string &v) { key(k); b += '"'; b += v; b += '"'; return *this; }
     J& raw(const char* k, const std::string &v) { key(k); b += v; return *this; }
     J& arr(const char* k, const std::vector<long> &v) {
@@ -1656,6 +1661,16 @@ int main(int argc, char** argv)
         try {
             dispatch(T);
         } catch (harness_error he) {
+            // The script refers to something that does not exist.  If an earlier
+            // library call failed (e.g. the reader that should have created this
+            // forest threw), that failure is the finding and it is already in the
+            // trace: record where the script had to stop and end normally; the trace
+            // specification accepts a Stop only after a failed call.
+            if (any_call_failed) {
+                J j("Stop"); j.s("why", he.what).s("cmd", curcmd); j.done();
+                close(trace_fd);
+                _exit(0);
+            }
             fprintf(stderr, "mdrive: harness error at %s:%ld: %s\n", argv[1], lineno, he.what.c_str());
             return 2;
         } catch (error e) {
